@@ -40,42 +40,59 @@ def strip_lines(files, outdir, tag="obsonly"):
     return res
 
 
-def judge(files, module, cfg, v, details, level, keyfn=None, violation=True, timeout=1800):
-    """Validate; for each rejected/violating file report the run.  Returns (n_rejected, drift list)."""
-    res = vlib.validate_traces(module, cfg, files, timeout=timeout)
+def judge(files, module, cfg, v, details, level, keyfn=None, violation=True, timeout=1800, max_rounds=12):
+    """Validate; for each rejected/violating file report the run, cut that run out of the file and
+    validate the rest again (TLC stops at the first violation), so that several findings in one
+    file all surface.  Returns (n_bad_runs, drift list, states)."""
+    import re
     bad = 0
     drift = []
     states = 0
-    for f, r in zip(files, res):
-        states += r["distinct"]
-        if r["accepted"]:
-            continue
-        bad += 1
-        ev = vlib.read_ndjson(f)
-        if r["violated"] not in (None, "postcondition"):
-            # an invariant is false in some state of the recorded execution: find the run via
-            # the counterexample's value of l (last "l = n" printed)
-            import re
-            ls = re.findall(r"/\\ l = (\d+)", r["out"])
-            i = (int(ls[-1]) - 2) if ls else 0
-            what = "invariant %s is false" % r["violated"]
-            kind = str(r["violated"])
-        else:
-            i = (r["hw"] or 1) - 1
-            what = "not a behaviour of %s: %s" % (module, vlib.explain_rejection(f, r["hw"]))
-            e = ev[min(i, len(ev) - 1)]
-            kind = "reject-%s-%s" % (e.get("e"), e.get("t", e.get("role", "")))
-        i = max(0, min(i, len(ev) - 1))
-        run = vlib.run_of(ev, i)
-        rid = run[0].get("run") if run else None
-        det = details.get(rid, {})
-        key = keyfn(kind, run, det) if keyfn else "%s-%s" % (level, kind)
-        payload = {"case": det.get("case"), "detail": {k: det.get(k) for k in ("entries", "extra", "touched", "shown", "client_err", "server_err", "hung")},
-                   "events": [e for e in run if e.get("e") != "line"][:40], "tlc": r["out"][-1500:] if r["violated"] not in (None, "postcondition") else ""}
-        if violation:
-            v.violation(key, "run %s: %s" % (rid, what), payload)
-        else:
-            drift.append({"run": rid, "what": what[:600]})
+    todo = list(files)
+    for rnd in range(max_rounds):
+        if not todo:
+            break
+        res = vlib.validate_traces(module, cfg, todo, timeout=timeout)
+        nxt = []
+        for f, r in zip(todo, res):
+            if rnd == 0:
+                states += r["distinct"]
+            if r["accepted"]:
+                continue
+            bad += 1
+            ev = vlib.read_ndjson(f)
+            if r["violated"] not in (None, "postcondition"):
+                ls = re.findall(r"/\\ l = (\d+)", r["out"])
+                i = (int(ls[-1]) - 2) if ls else 0
+                what = "invariant %s is false" % r["violated"]
+                kind = str(r["violated"])
+            else:
+                i = (r["hw"] or 1) - 1
+                what = "not a behaviour of %s: %s" % (module, vlib.explain_rejection(f, r["hw"]))
+                e = ev[min(i, len(ev) - 1)]
+                kind = "reject-%s-%s" % (e.get("e"), e.get("t", e.get("role", "")))
+            i = max(0, min(i, len(ev) - 1))
+            run = vlib.run_of(ev, i)
+            rid = run[0].get("run") if run else None
+            det = details.get(rid, {})
+            key = keyfn(kind, run, det) if keyfn else "%s-%s" % (level, kind)
+            payload = {"case": det.get("case"),
+                       "detail": {k: det.get(k) for k in ("entries", "extra", "touched", "shown", "client_err", "server_err", "hung", "left_frames")},
+                       "events": [e for e in run if e.get("e") != "line"][:40],
+                       "tlc": r["out"][-1500:] if r["violated"] not in (None, "postcondition") else ""}
+            if violation:
+                v.violation(key, "run %s: %s" % (rid, what), payload)
+            else:
+                drift.append({"run": rid, "what": what[:600]})
+            # cut the run out and look at the rest of the file again
+            rest = [e for e in ev if e.get("run") != rid]
+            if rest and len(rest) < len(ev):
+                p2 = f if f.endswith(".rest.ndjson") else f.replace(".ndjson", ".rest.ndjson")
+                with open(p2, "w") as out:
+                    for e in rest:
+                        out.write(json.dumps(e) + "\n")
+                nxt.append(p2)
+        todo = nxt
     return bad, drift, states
 
 
